@@ -16,7 +16,7 @@ class LPoly():
         if len(self.coefs) == 0:
             self.dmin = dmin
             self.iszero = True
-            self.coefs = [0]
+            self.coefs = numpy.zeros(1)
         else:
             assert(len(self.coefs.shape) == 1), self.coefs
             self.dmin = dmin
@@ -84,6 +84,8 @@ class LPoly():
         if isinstance(other, LAlg):
             return LAlg(self * other.IPoly, self * other.XPoly)
         if not isinstance(other, LPoly):
+            if self.iszero:
+                return LPoly([], self.dmin)
             return LPoly(other * self.coefs, self.dmin)
         if self.iszero or other.iszero:
             return LPoly([])
@@ -95,6 +97,8 @@ class LPoly():
         if isinstance(other, LAlg):
             return LAlg(self * other.IPoly, ~self * other.XPoly)
         elif not isinstance(other, LPoly):
+            if self.iszero:
+                return LPoly([], self.dmin)
             return LPoly(other * self.coefs, self.dmin)
 
     def __add__(self, other):
@@ -112,6 +116,8 @@ class LPoly():
         return LPoly(coefs, dmin)
 
     def __neg__(self):
+        if self.iszero:
+            return LPoly([], self.dmin)
         return LPoly(-1 * self.coefs, self.dmin)
 
     def __invert__(self):
